@@ -382,6 +382,9 @@ def main(argv=None) -> int:
     if not args.no_evidence:
         write_evidence(prop, args.tier, seed, mod, total, wall, len(violations), known_lines,
                        getattr(mod, "MODE", "hypothesis"))
+    aborted = {k: v for k, v in total.classes.items() if k.startswith("aborted:")}
+    if aborted:
+        print(f"note: walks abandoned by a hand-over rule / time limit (counted, not a verdict): {aborted}")
     for line in known_lines:
         print(line)
     for bucket, message, path in violations:
